@@ -81,7 +81,7 @@ func spine(r *R) []layerInfo {
 			return spine(r.K[1])
 		}
 		return kid()
-	case "handled", "join", "joinraw", "stdjoin", "fmterrorfs", "umulti", "newfe":
+	case "handled", "handledindomain", "join", "joinraw", "stdjoin", "fmterrorfs", "umulti", "newfe":
 		return nil // barrier / multi-cause / leaf: the chain ends here
 	case "hop", "wrap", "withmessage", "withstack", "domain", "safedetails", "http", "grpc", "pkgwithmessage",
 		"pkgwithstack", "patherr", "linkerr", "syscallerr", "fmterrorf", "uwrap", "mark", "secondary", "newfw", "wrapfe":
